@@ -632,6 +632,17 @@ def _run(args: argparse.Namespace) -> int:
         run_space_override = True
 
     if args.run_space_max_runs is not None or args.run_space_dry_run:
+        if "run_space" not in config:
+            # The run space may also be declared under ``pipeline:``; the options apply
+            # to that block instead of shadowing it with an empty top-level one.
+            pipeline_section = config.get("pipeline")
+            nested = (
+                pipeline_section.get("run_space")
+                if isinstance(pipeline_section, dict)
+                else None
+            )
+            if isinstance(nested, dict):
+                config["run_space"] = dict(nested)
         run_space_section = config.setdefault("run_space", {})
         if not isinstance(run_space_section, dict):
             print("Invalid config: run_space block must be a mapping", file=sys.stderr)
